@@ -59,6 +59,18 @@ InitSets ==
 InitLists ==
   /\ input \in UNION {[1..n -> Words(N) \X Factors] : n \in 1..MaxList}
   /\ Common
+\* every product table  S_1 x ... x S_N  of per-site symbol sets with unit prefactors (rank-deficient coefficient matrices at
+\* every cut: the minimum cover is min(|rows|, |columns|) while the numerical rank of the prefactor matrix is 1)
+RECURSIVE SortedWords(_)
+SortedWords(S) == IF S = {} THEN <<>>
+                  ELSE LET m == CHOOSE w \in S : \A v \in S : WVal(w, 1) <= WVal(v, 1) IN <<m>> \o SortedWords(S \ {m})
+InitProducts ==
+  /\ \E S \in [1..N -> (SUBSET Sym) \ {{}}] :
+        /\ Cardinality({i \in 1..N : Cardinality(S[i]) >= 2}) >= 2
+        /\ LET W == {w \in Words(N) : \A i \in 1..N : w[i] \in S[i]} IN
+           /\ Cardinality(W) <= MaxTerms
+           /\ input = [k \in 1..Cardinality(W) |-> <<SortedWords(W)[k], 1>>]
+  /\ Common
 Init == InitSets
 
 \* ---- one site ----
